@@ -87,7 +87,7 @@ func c13Val(v interface{}) string {
 			return "p"
 		}
 		return "p?"
-	case *interfaces.InterfaceConfig, *ip.VRFSConfig:
+	case *interfaces.InterfaceConfig, *ip.VRFSConfig, *interfaces.IPv6Config:
 		return c13ObjToken(reflect.ValueOf(v))
 	case []string:
 		if len(x) == 0 {
